@@ -129,16 +129,59 @@ fn long_value(spec: &CharacterDataSpec, len: usize) -> Option<String> {
     }
 }
 
+/// texts outside the value space, judged by the harness's own automaton of the regular expression (never by the crate's
+/// validator, which is the subject): generic ones, every proper prefix of a member, and the shortest non-members of the
+/// transition cover (access string of every state extended by one byte of every byte class)
 fn non_member(spec: &CharacterDataSpec) -> Vec<String> {
+    use crate::common::regexdfa::Dfa;
+    use std::collections::HashMap;
+    use std::sync::Mutex;
+    static CACHE: Mutex<Option<HashMap<String, Vec<String>>>> = Mutex::new(None);
     match spec {
-        CharacterDataSpec::Pattern { check_fn, regex, .. } => {
+        CharacterDataSpec::Pattern { regex, .. } => {
+            if let Some(v) = CACHE.lock().unwrap().get_or_insert_with(HashMap::new).get(*regex) {
+                return v.clone();
+            }
             let mut ctr = 0;
             let m = sample_for_regex(regex, &mut ctr);
             let mut c: Vec<String> = vec!["!".into(), format!("{m}!"), format!("!{m}"), "\u{e9}".into()];
-            if m.len() > 1 {
-                c.push(m[..m.len() - 1].to_string());
+            for k in 1..m.len() {
+                if m.is_char_boundary(k) {
+                    c.push(m[..k].to_string());
+                }
             }
-            c.into_iter().filter(|s| !s.is_empty() && !check_fn(s.as_bytes())).collect()
+            let out: Vec<String> = match Dfa::from_regex(regex) {
+                Ok(d) => {
+                    let d = d.minimized();
+                    let (_, reps) = d.byte_classes();
+                    let mut cover: Vec<Vec<u8>> = vec![];
+                    for access in d.state_cover() {
+                        for b in &reps {
+                            let mut t = access.clone();
+                            t.push(*b);
+                            cover.push(t);
+                        }
+                        cover.push(access);
+                    }
+                    cover.sort_by_key(|t| (t.len(), t.clone()));
+                    cover.dedup();
+                    let near: Vec<String> = cover
+                        .into_iter()
+                        .filter(|t| !t.is_empty() && t.len() <= 8 && !d.accepts(t) && t.iter().all(|b| (0x20..0x7f).contains(b) && !b"<>&\"'".contains(b)))
+                        .filter_map(|t| String::from_utf8(t).ok())
+                        .filter(|t| t.trim() == t)
+                        .take(16)
+                        .collect();
+                    c.extend(near);
+                    c.sort();
+                    c.dedup();
+                    c.into_iter().filter(|s| !s.is_empty() && !d.accepts(s.as_bytes())).collect()
+                }
+                // no automaton for this expression: fall back to texts that no AUTOSAR pattern accepts
+                Err(_) => vec!["!".into(), "\u{e9}".into()],
+            };
+            CACHE.lock().unwrap().get_or_insert_with(HashMap::new).insert(regex.to_string(), out.clone());
+            out
         }
         CharacterDataSpec::UnsignedInteger => vec!["x1".into(), "-1".into(), "1.5".into(), "18446744073709551616".into(), "0x10".into()],
         CharacterDataSpec::Float => vec!["abc".into(), "1,5".into(), "--1".into(), "1e".into()],
